@@ -4,12 +4,12 @@ obligation: utils.ChunksizeAdjuster._adjust_for_max_parts/loop@806.variant_decre
 function:   utils.ChunksizeAdjuster._adjust_for_max_parts
 kind:       loop-variant   line: 806
 note:       
-solver:     z3 verdict=sat time=0.22561287879943848
+solver:     z3 verdict=sat time=0.03887343406677246
 model (projection on 0-ary symbols):
-    chunksize!12 = 1
+    chunksize!11 = 1
     current_chunksize!9 = 1
-    file_size!10 = 10001
-    num_parts!11 = 10001
+    file_size!10 = 10000
+    num_parts!12 = 10000
 """
 # no concrete input could be derived for this obligation (ghost / trace / monitor state)
 NO_FAILING_INPUT_FOUND = True
@@ -17,8 +17,8 @@ SMT2 = r"""; benchmark generated from python API
 (set-info :status unknown)
 (declare-fun current_chunksize!9 () Int)
 (declare-fun file_size!10 () Int)
-(declare-fun chunksize!12 () Int)
-(declare-fun num_parts!11 () Int)
+(declare-fun chunksize!11 () Int)
+(declare-fun num_parts!12 () Int)
 (assert
  (>= current_chunksize!9 1))
 (assert
@@ -30,29 +30,32 @@ SMT2 = r"""; benchmark generated from python API
 (assert
  (not (= (to_real current_chunksize!9) 0.0)))
 (assert
- (let (($x153 (>= chunksize!12 1)))
- (let (($x152 (>= chunksize!12 current_chunksize!9)))
+ (let (($x153 (>= chunksize!11 1)))
+ (let (($x152 (>= chunksize!11 current_chunksize!9)))
  (and $x152 $x153))))
 (assert
- (and (>= (* num_parts!11 chunksize!12) file_size!10) (< (* (- num_parts!11 1) chunksize!12) file_size!10)))
+ (and (>= (* num_parts!12 chunksize!11) file_size!10) (< (* (- num_parts!12 1) chunksize!11) file_size!10)))
 (assert
- (let (($x172 (= (mod chunksize!12 2) 0)))
- (let (($x171 (= chunksize!12 current_chunksize!9)))
- (or $x171 (and $x172 (< (* 10000 (div chunksize!12 2)) file_size!10))))))
+ (let ((?x176 (div chunksize!11 2)))
+ (let ((?x177 (* 10000 ?x176)))
+ (let (($x181 (< ?x177 file_size!10)))
+ (let (($x172 (= (mod chunksize!11 2) 0)))
+ (let (($x171 (= chunksize!11 current_chunksize!9)))
+ (or $x171 (and $x172 (>= ?x176 current_chunksize!9) $x181))))))))
 (assert
- (let (($x171 (= chunksize!12 current_chunksize!9)))
- (or $x171 (< chunksize!12 9007199254740992))))
+ (< chunksize!11 9007199254740992))
 (assert
- (not (<= num_parts!11 10000)))
+ (<= 10000 num_parts!12))
 (assert
- (not (= (to_real chunksize!12) 0.0)))
+ (not (= (to_real chunksize!11) 0.0)))
 (assert
- (let ((?x207 (- file_size!10 (* 10000 (* chunksize!12 2)))))
-(let (($x196 (and (< ?x207 ?x207) (> ?x207 0))))
-(not $x196))))
+ (let ((?x375 (* 10000 chunksize!11)))
+(let ((?x416 (- file_size!10 ?x375)))
+(let (($x273 (and (< (- file_size!10 (* 10000 (* chunksize!11 2))) ?x416) (> ?x416 0))))
+(not $x273)))))
 (check-sat)
 """
-SOLVER_OUTPUT = r"""[current_chunksize!9 = 1,
- num_parts!11 = 10001,
- file_size!10 = 10001,
- chunksize!12 = 1]"""
+SOLVER_OUTPUT = r"""[num_parts!12 = 10000,
+ chunksize!11 = 1,
+ current_chunksize!9 = 1,
+ file_size!10 = 10000]"""
